@@ -426,6 +426,27 @@ def scenario_failed_plan_then_env_change():
     return spec, phases
 
 
+def scenario_failed_plan_then_new_match():
+    """As failed_plan_then_edit, but what happens while StepUp is down is a new file that matches a
+    glob pattern which only the (detached) sub-plan registered."""
+    tmpl = {"cmd": "do " + json.dumps([{"a": "read", "path": "{m}"}, {"a": "write", "path": "out/g_{b}.txt"}]),
+            "inp": ["{m}"], "out": ["out/g_{b}.txt"]}
+    spec = {
+        "sources": {"src/a.txt": "a\n", "in/g0.src": "g0\n"},
+        "env": {},
+        "steps": {"A": {"kind": "do", "salt": "", "inp": ["src/a.txt"], "out": ["out/a.txt"]}},
+        "plans": {".": [["static", ["src/a.txt", "sub/plan.py"]], ["step", "A"], ["plan", "sub"]],
+                  "sub": [["pattern", "in/*.src"], ["glob", "in/*.src", tmpl]]},
+    }
+    p2 = copy.deepcopy(spec)
+    p2["plans"]["."] = [["static", ["src/a.txt", "sub/plan.py"]], ["step", "A"],
+                        ["raw", {"a": "fail", "rc": 3}], ["plan", "sub"]]
+    p3 = copy.deepcopy(spec)
+    p3["sources"]["in/g1.src"] = "g1 appeared while StepUp was down\n"
+    return spec, [{"edits": [["break_plan", "root plan fails before the sub-plan"]], "spec": p2},
+                  {"edits": [["repair_plan", "root plan as before"], ["add_match", "in/g1.src"]], "spec": p3}]
+
+
 def scenario_optional_amend_dropped():
     """An optional producer whose only consumer stops amending its output."""
     spec = {
@@ -519,6 +540,7 @@ SEED_SCENARIOS = {
     "deferred_subplan_moved_output": scenario_deferred_subplan_moved_output,
     "failed_plan_then_edit": scenario_failed_plan_then_edit,
     "failed_plan_then_env_change": scenario_failed_plan_then_env_change,
+    "failed_plan_then_new_match": scenario_failed_plan_then_new_match,
     "subplan_readd": scenario_subplan_readd,
     "optional_amend_dropped": scenario_optional_amend_dropped,
     "recycle_chain": scenario_recycle_chain,
